@@ -289,7 +289,7 @@ def shrink(pm, scn, sig, budget=300, wall=120.0):
             n = min(len(steps), n * 2)
     # per-step simplification
     for i, s in enumerate(list(cur["steps"])):
-        for key in ("reencode", "fmt"):
+        for key in ("reencode", "fmt", "interrupt", "blob_as", "as"):
             if key in s:
                 c = json.loads(json.dumps(cur))
                 del c["steps"][i][key]
@@ -543,10 +543,25 @@ def run_batch(pid, tier, seed, workers=None, runs=None, write_evidence=True, qui
         with open(path, "w") as f:
             json.dump(jsonable(small), f, indent=1, sort_keys=True)
         ok, dig = verify_fresh(path)
-        if ok and dig == small["expect"].get("digest"):
+        unstable = False
+        if ok and dig != small["expect"].get("digest"):
+            # the same violation (same signature) in a fresh interpreter, but another event log: what the
+            # library RETURNS differs from process to process (e.g. an object address leaks into its
+            # output).  Accept if two more fresh interpreters both violate the same signature.
+            ok_b, dig_b = verify_fresh(path)
+            ok_c, dig_c = verify_fresh(path)
+            unstable = ok_b and ok_c
+        if ok and (dig == small["expect"].get("digest") or unstable):
             print("VIOLATION property=%s replay=%s" % (pid, path))
             print("  clause=%s :: %s" % (v["sig"].get("clause"), v["msg"]))
             print("  signature=%s steps=%d (from %d)" % (key, len(small["steps"]), len(scn["steps"])))
+            if unstable:
+                print("  (reproduces with this signature in every fresh interpreter; the event-log digest differs "
+                      "between processes - the library's output depends on process state such as object addresses)")
+                small["expect"]["digest"] = None
+                small["expect"]["output_differs_between_processes"] = True
+                with open(path, "w") as f:
+                    json.dump(jsonable(small), f, indent=1, sort_keys=True)
             nreported += 1
             rc = max(rc, 1) if rc != 2 else 2
         else:
